@@ -269,6 +269,13 @@ Definition types_uniform : bool :=
 
 Definition load := load_with gen_facts.
 
+(* ---------------- userPOS written / not written ---------------- *)
+
+(* a provider's settings either name the mode or do not mention it.  What the code does with an unmentioned mode is the
+   regenerated Default of UserPosMode; what the property allows is only an EXPLICIT allow *)
+Definition eff_mode (m : option bool) : bool := match m with Some b => b | None => Guards.user_pos_default_allow end.
+Definition explicit_mode (m : option bool) : bool := match m with Some b => b | None => false end.
+
 (* ---------------- entry point of the correspondence shards ---------------- *)
 
 Inductive status := SOk | SErr | SPanic.
@@ -302,3 +309,13 @@ Definition check_load (debug : bool) (g : gram) (cfg : config) (impl_status : st
   | Err => status_eqb impl_status SErr
   | Panic => false (* whatever the implementation did: a model panic is a violation of "returns an error value" *)
   end.
+
+(* configurations whose providers may leave userPOS out: `cfg_of M` is the configuration with every mode passed through M.
+   Correspondence uses the mode the code gives (eff_mode); the property demands that an accepted configuration is also
+   accepted when unmentioned modes count as forbid. *)
+Definition check_load_m (debug : bool) (g : gram) (cfg_of : (option bool -> bool) -> config) (impl_status : status)
+           (impl_nodes : list (list node)) (impl_cells : list (Z * Z * Z)) (analysis_ok : bool) : bool :=
+  check_load debug g (cfg_of eff_mode) impl_status impl_nodes impl_cells analysis_ok
+  && (if status_eqb impl_status SOk
+      then match load debug g (cfg_of explicit_mode) with Ok _ => true | _ => false end
+      else true).
